@@ -601,6 +601,70 @@ def op_tree_preds(ctx, dendropy, pending):
             return
         line = "compat %s %d %s" % (case["rooted"], b2.split_bitmask, " ".join(toks1))
         pending.append((line, dict(case, split=b2.split_bitmask), "1" if got else "0"))
+    # the tree now carries an encoding: edit it through the public API and ask again with default arguments —
+    # the answer must describe the tree as it stands, not the encoding left behind by the earlier calls
+    nodes = tu.walk(t1.seed_node)
+    idx = dict((id(nd), i) for i, nd in enumerate(nodes))
+    lvs = [nd for nd in nodes if not nd._child_nodes]
+    edit = None
+    for _try in range(3):
+        r = rng.random()
+        if r < 0.4 and len(lvs) >= 2:
+            x, y = rng.sample(lvs, 2)
+            if x._parent_node is not y._parent_node:
+                edit = ["swap", idx[id(x)], idx[id(y)]]
+        elif r < 0.7:
+            internal = [nd for nd in nodes if nd._child_nodes and nd._parent_node is not None]
+            if internal:
+                edit = ["collapse", idx[id(rng.choice(internal))], 0]
+        else:
+            big = [nd for nd in nodes if len(nd._child_nodes) >= 3]
+            if big:
+                edit = ["group", idx[id(rng.choice(big))], 0]
+        if edit:
+            break
+    if edit:
+        stale_history(ctx, dendropy, t1, e2[:10], edit, dict(case, op="stalepred", edit=edit), queried=True)
+
+
+def stale_history(ctx, dendropy, t1, queries, edit, case, queried=False):
+    """query -> edit through the public API -> query again with default arguments"""
+    if not queried:
+        for b2 in queries:
+            t1.is_compatible_with_bipartition(b2)
+    nodes = tu.walk(t1.seed_node)
+    kind, i, j = edit
+    if kind == "swap":
+        x, y = nodes[i], nodes[j]
+        x.taxon, y.taxon = y.taxon, x.taxon
+    elif kind == "collapse":
+        nodes[i].edge.collapse()
+    else:
+        nd = nodes[i]
+        k1, k2 = nd._child_nodes[0], nd._child_nodes[1]
+        new = dendropy.Node()
+        nd.remove_child(k1)
+        nd.remove_child(k2)
+        new.add_child(k1)
+        new.add_child(k2)
+        nd.add_child(new)
+    rooted = bool(t1.is_rooted)
+    m1 = tu.leafset_masks(t1)
+    F = bits_of(m1[id(t1.seed_node)])
+    sides1 = [bits_of(m1[id(nd)]) for nd in tu.walk(t1.seed_node)]
+
+    def compatible(A, B):
+        if rooted:
+            return (not (A & B)) or A <= B or B <= A
+        return quadrants_empty(A, B, F)
+    for b2 in queries:
+        B = bits_of(b2.leafset_bitmask)
+        want = all(compatible(A, B) for A in sides1)
+        got = bool(t1.is_compatible_with_bipartition(b2))
+        if got != want:
+            ctx.fail("predicate", "after the edit %s, Tree.is_compatible_with_bipartition (default arguments) = %s for leafset %s; "
+                     "the set definition on the tree as it stands says %s" % (edit, got, sorted(B), want), case)
+            return
 
 
 def flush(ctx, pending):
@@ -722,6 +786,10 @@ def replay(ctx, rec):
             ctx.fail("predicate", "is_trivial_bitmask(%d,%d) wrong" % (a, fill), c)
         if F and min(F) not in A and min(F) not in B and bool(Bipartition.is_compatible_bitmasks(a, b, fill)) != quadrants_empty(A, B, F):
             ctx.fail("predicate", "is_compatible_bitmasks(%d,%d,%d) wrong" % (a, b, fill), c)
+    elif op == "stalepred":
+        t1, _ = tree_for_case(dendropy, c)
+        t2, _ = tu.tree_from_tokens(dendropy, c["tree2"], rooted=t1.is_rooted, tns=t1.taxon_namespace)
+        stale_history(ctx, dendropy, t1, list(t2.encode_bipartitions())[:10], c["edit"], c)
     elif op in ("pair", "treepreds", "rebuild"):
         t1, _ = tree_for_case(dendropy, c)
         if op == "rebuild":
